@@ -11,6 +11,11 @@
    for a dict *subclass* that overrides items() (OrderedMultiDict: (key, last value))
    that is not the stored mapping, so super().get(k, [d])[-1] subscripted an int.
    The shim reads the storage with dict.items(self).
+4. relib models `$` (AT_END without re.MULTILINE) as "end of string" only; `re` also
+   matches just before a single trailing newline (found when a seeded change replaced a
+   search for unsafe characters by `^[safe]+$`.match and the check missed 'abc\n').
+   The shim re-compiles relib._internal_match_patterns from its own source with that
+   case added.
 """
 
 
@@ -56,3 +61,33 @@ def install():
                     return symbolic_self.get(key, default)
         return dict.get(self, key, default)
     _core._PATCH_REGISTRATIONS[dict.get] = _dict_get
+
+    import inspect
+    import textwrap
+    src = inspect.getsource(relib._internal_match_patterns)
+    old = """            if arg is AT_END and re.MULTILINE & flags:
+                with ResumedTracing():
+                    next_char = ord(string[offset])
+                return fork_on(
+                    SymbolicInt._coerce_to_smt_sort(next_char) == ord("\\n"), 0
+                )
+            return None
+"""
+    new = """            if arg is AT_END:
+                with ResumedTracing():
+                    next_char = ord(string[offset])
+                if re.MULTILINE & flags:
+                    return fork_on(
+                        SymbolicInt._coerce_to_smt_sort(next_char) == ord("\\n"), 0
+                    )
+                # not MULTILINE: `$` also matches just before one final newline
+                if space.smt_fork(SymbolicInt._coerce_to_smt_sort(matchable_len) == 1):
+                    return fork_on(
+                        SymbolicInt._coerce_to_smt_sort(next_char) == ord("\\n"), 0
+                    )
+            return None
+"""
+    if old not in src:
+        raise RuntimeError('CrossHair relib source changed: cannot install the `$` shim')
+    ns = relib.__dict__
+    exec(compile(textwrap.dedent(src.replace(old, new)), relib.__file__, 'exec'), ns)
